@@ -1,6 +1,7 @@
 #!/bin/bash
-# Re-evaluates every kept change under seeded/ with the current machinery (3 in parallel) and
+# Re-evaluates kept changes under seeded/ with the current machinery (default 3 in parallel, all 20 checks each) and
 # rewrites each meta.json (caught_by, ...).  Development aid, not a registered check.
+#   tools/selftest_all.sh [parallel] [name filter regex]
 cd "$(dirname "$0")/.."
 mkdir -p .cache/mutlogs
-ls seeded | xargs -P "${1:-3}" -I{} bash -c 'python3 tools/try_mutant.py --seeded {} > .cache/mutlogs/re-{}.log 2>&1; tail -1 .cache/mutlogs/re-{}.log'
+ls seeded | grep -E "${2:-.}" | xargs -P "${1:-3}" -I{} bash -c 'python3 tools/try_mutant.py --seeded {} > .cache/mutlogs/re-{}.log 2>&1; tail -1 .cache/mutlogs/re-{}.log'
